@@ -108,6 +108,29 @@ no ip route vrf 013 10.40.0.0 255.255.0.0 10.3.3.4
 =END=
 
 ############################################################
+=TITLE=Change IPv6 routing
+=DEVICE=
+ipv6 route 10::20:0/112 10::1:3
+ipv6 route 10::30:0/112 10::1:3
+ipv6 route 10::40:0/112 10::1:3
+ipv6 route vrf 013 10::30:0/112 10::3:3
+ipv6 route vrf 013 10::40:0/112 10::3:4
+=NETSPOC=
+ipv6 route 10::10:0/112 10::1:3
+ipv6 route 10::20:0/112 10::1:3
+ipv6 route 10::40:0/112 10::1:4
+ipv6 route vrf 013 10::20:0/112 10::3:3
+ipv6 route vrf 013 10::30:0/112 10::3:4
+=OUTPUT=
+ipv6 route 10::10:0/112 10::1:3
+no ipv6 route 10::40:0/112 10::1:3\N ipv6 route 10::40:0/112 10::1:4
+ipv6 route vrf 013 10::20:0/112 10::3:3
+no ipv6 route vrf 013 10::30:0/112 10::3:3\N ipv6 route vrf 013 10::30:0/112 10::3:4
+no ipv6 route 10::30:0/112 10::1:3
+no ipv6 route vrf 013 10::40:0/112 10::3:4
+=END=
+
+############################################################
 =TITLE=Leave routing in global VRF unchanged
 # Routes and ACL in global VRF
 =DEVICE=
